@@ -34,11 +34,13 @@ def _case(draw):
     n = draw(st.integers(0, 40))
     nr = draw(st.integers(1, 8))
     vals = draw(st.lists(st.lists(st.floats(-1.0, 1.0), min_size=k, max_size=k), min_size=n, max_size=n))
-    wkind = draw(st.sampled_from(['uniform', 'arbitrary', 'geometric', 'ties']))
+    wkind = draw(st.sampled_from(['uniform', 'arbitrary', 'geometric', 'ties', 'tiny']))
     if wkind == 'uniform':
         w = [1.0] * n
     elif wkind == 'arbitrary':
         w = draw(st.lists(st.floats(1e-3, 1e3), min_size=n, max_size=n))
+    elif wkind == 'tiny':
+        w = [1e-300 * x for x in draw(st.lists(st.sampled_from([1.0, 1.0, 2.0]), min_size=n, max_size=n))]
     elif wkind == 'geometric':
         r = draw(st.floats(1e-30, 0.9))
         w = [max(r ** i, 1e-300) for i in range(n)]
